@@ -172,7 +172,9 @@ func checkC13(c c13Case, r *vcore.Rec) *vcore.Failure {
 		conf.DefaultNetworks = []string{"neta", "netb"}
 	}
 	gpod := Pod(ipamsim.NS, pod.Name, map[string]string{constant.ExtendedCNIArgsAnnotation: ann}, true)
-	d, err := NewDaemon(env, conf, "", []*corev1.Pod{gpod})
+	// a second pod on the node never asked galaxy-ipam for anything: no IP may reach its plugin
+	plain := Pod(ipamsim.NS, "plain-0", nil, false)
+	d, err := NewDaemon(env, conf, "", []*corev1.Pod{gpod, plain})
 	if err != nil {
 		return vcore.Failf("harness:init", "daemon construction failed: %v", err)
 	}
@@ -216,6 +218,17 @@ func checkC13(c c13Case, r *vcore.Rec) *vcore.Failure {
 					"(all allocated in order: %s)", rec.Network, i, gotIP, ones, r020.IP4.Gateway, vlans[i], expectIPs[i], ep.MaskLen(), ep.Gateway,
 					ep.Vlan, strings.Join(expectIPs, ","))
 			}
+		}
+	}
+	cid2 := ContainerID("c13p")
+	defer RemoveState(cid2)
+	if code, body := d.Request("ADD", cid2, ipamsim.NS, "plain-0", "eth0", ""); code != 200 {
+		return vcore.Failf("c13:add", "ADD of the pod without floating IP failed: %d %s", code, body)
+	}
+	for _, rec := range env.Log()[len(log):] {
+		if strings.Contains(rec.Args, "ipinfos=") {
+			return vcore.Failf("c13:foreign_ips", "IPAM allocated nothing for pod plain-0, but its plugin %s is told to configure %s (the IPs "+
+				"allocated for %s)", rec.Network, rec.Args, pod.Name)
 		}
 	}
 	r.ClassIf(c.K >= 2, "k_ge_2")
